@@ -332,7 +332,7 @@ def run(ctx):
         # ---- K: export_to_csv + filter_graph_with_ancestors on solution forests
         for fi in range(n_forests_k):
             times, edges, merged = gen_forest(rng)
-            per_axis = rng.random() < 0.3
+            per_axis = (not merged) and rng.random() < 0.3   # (a copy of a merge graph may order the parents differently)
             tracks = make_tracks_axes(times, edges) if per_axis else make_tracks(times, edges)
             g = tracks.graph.copy() if per_axis else tracks.graph   # reference copy: the export must not prune the live graph
             if per_axis:
